@@ -48,4 +48,9 @@
 (declare-fun utf8enc (Int) String)         ;;@trusted UTF-8 encoding of a rune >= 0x80
 (assert (forall ((r Int)) (! (>= (str.len (utf8enc r)) 2) :pattern ((utf8enc r))))) ;;@trusted multi-byte encodings have at least two bytes
 (define-fun runeStr ((r Int)) String (ite (and (<= 0 r) (< r 128)) (str.from_code r) (utf8enc r)))
-(declare-fun joinS ((Array Int (Array Int String)) Slice String) String) ;;@trusted strings.Join is a function of the slice contents and separator
+; strings.Join over a row of a []string: elements off..off+n-1 separated by sep
+(define-fun-rec joinRow ((row (Array Int String)) (off Int) (n Int) (sep String)) String
+  (ite (<= n 0) "" (ite (= n 1) (select row off)
+       (str.++ (joinRow row off (- n 1) sep) sep (select row (+ off (- n 1)))))))
+(define-fun joinS ((Mem_Str (Array Int (Array Int String))) (s Slice) (sep String)) String
+  (joinRow (select Mem_Str (s-arr s)) (s-off s) (s-len s) sep)) ;;@trusted strings.Join(s, sep) is the elements of s in order with sep between neighbours
